@@ -333,9 +333,7 @@ func c02CheckProgram(c0 *Ctx, p *c02Prog, or *Oracle, srv *FcSrv, hazard bool, q
 	viol := func(name, summary string, extra map[string]any, known bool) {
 		if known {
 			c.Count(p.Stream + "_mismatch=" + name)
-			if p.Stream == "hazard-matcharms" {
-				c.Known("match-arms-not-unified")
-			} else if p.Stream == "hazard-union2" {
+			if p.Stream == "hazard-union2" {
 				c.Known("generic-union-two-instantiations")
 			} else {
 				c.Known("generic-named-args-not-unified")
@@ -392,7 +390,7 @@ func c02CheckProgram(c0 *Ctx, p *c02Prog, or *Oracle, srv *FcSrv, hazard bool, q
 		if mask == 0 {
 			res.fullGen = gen
 		}
-		known := hazard && (c02LeakRe.MatchString(gen) || p.Stream == "hazard-union2" || p.Stream == "hazard-matcharms")
+		known := hazard && (c02LeakRe.MatchString(gen) || p.Stream == "hazard-union2")
 		got, err := c02GoSigs(gen)
 		if err != nil {
 			bad = true
@@ -825,7 +823,7 @@ func runC02(c *Ctx) {
 	nRand := c.Pick(110, 6000)
 	nShape := c.Pick(45, 2800)
 	nFam := c.Pick(10, 500) // per family (twobox, clamp, shadow, anyarg, retann, pipe, match)
-	nHazard := c.Pick(6, 60)
+	nHazard := c.Pick(4, 40)
 	c02MaxSites = c.Pick(4, 6) // quick: <= 2^4 variants per program, thorough: <= 2^6
 	var progs []*c02Prog
 	if c.Replay != "" {
@@ -878,9 +876,7 @@ func runC02(c *Ctx) {
 				case "rand":
 					p = c02GenRandProg(c, j.rng, or, j.id, "")
 				case "hazard":
-					if j.id%3 == 0 {
-						p = c02HazardMatchArms(j.rng, j.id)
-					} else if j.id%3 == 1 {
+					if j.id%2 == 0 {
 						p = c02HazardTemplate(j.rng, j.id)
 					} else {
 						p = c02FamTwoBox(j.rng, j.id, true)
